@@ -24,6 +24,7 @@ CONSTANTS
   GI0, RS0,     \* the two indentations in the base document
   CRLF0,        \* BOOLEAN: the base document is written with CR LF line endings
   Core,         \* BOOLEAN: restrict scalars to the core space (used for exhaustive PAIRS of fields)
+  Wrap0,        \* wrapper of the base document: 0 none; 1 two parent keys, the inner one embedding the document (`|+`)
   BaseVar,      \* field order of the base document: 0 usual; 1 `for` / `expr` last; 2 `keep_firing_for` last
   MaxEdits,     \* number of edit actions applied to the base layout
   Acts,         \* enabled edit actions
@@ -103,7 +104,9 @@ Rule1 == [RuleDef EXCEPT !.items = CASE BaseVar = 1 -> <<FAlert, FExpr, FLab1, F
                       [] BaseVar = 2 -> <<FAlert, FExpr, FFor, FLab1, FAnn, FKff>>
                       [] OTHER       -> <<FAlert, FExpr, FFor, FLab1, FAnn>>]
 Rule2 == [RuleDef EXCEPT !.items = IF BaseVar = 1 THEN <<FRec, FLab2, FExpr>> ELSE <<FRec, FExpr, FLab2>>]
-Base  == [base |-> "doc", crlf |-> CRLF0, pre |-> <<>>, ghdr |-> <<>>, gi |-> GI0, rstep |-> RS0, rules |-> <<Rule1, Rule2>>, wrap |-> WrNone]
+Base  == [base |-> "doc", crlf |-> CRLF0, pre |-> <<>>, ghdr |-> <<>>, gi |-> GI0, rstep |-> RS0, rules |-> <<Rule1, Rule2>>,
+          wrap |-> IF Wrap0 = 1 THEN [WrNone EXCEPT !.levels = <<[LvDef EXCEPT !.key = "data"], [LvDef EXCEPT !.key = "spec", !.step = 4]>>, !.embed = TRUE]
+                   ELSE WrNone]
 
 Init == lay = (IF ReplayFile = "" THEN Base ELSE JsonDeserialize(ReplayFile)) /\ n = 0
 
@@ -197,12 +200,15 @@ WrapOK(b, w) ==
        /\ w.levels[i].sibB => ~(i > 1 /\ w.levels[i - 1].step = 0)
        /\ w.levels[i].sl => (w.levels[i].sibB \/ w.levels[i].sibA)
   /\ w.embed => w.levels # <<>>
+  /\ w.embed2 => (w.embed /\ Len(w.levels) >= 2)
 EditWrap ==
   \E w \in Pick({ [lay.wrap EXCEPT !.levels = <<lv>> \o @] :
                     lv \in [seq : BOOLEAN, key : WrapKeys, step : {2, 4}, sibB : BOOLEAN, sibA : BOOLEAN, sl : BOOLEAN] })
           \cup Pick({ [lay.wrap EXCEPT !.levels = @ \o <<lv>>] :
                     lv \in [seq : BOOLEAN, key : WrapKeys, step : {0, 2, 4}, sibB : BOOLEAN, sibA : BOOLEAN, sl : BOOLEAN] })
-          \cup { [lay.wrap EXCEPT !.embed = ~@], [lay.wrap EXCEPT !.docB = ~@], [lay.wrap EXCEPT !.docA = ~@] } :
+          \cup { [lay.wrap EXCEPT !.embed = ~@], [lay.wrap EXCEPT !.docB = ~@], [lay.wrap EXCEPT !.docA = ~@],
+                 [lay.wrap EXCEPT !.embed2 = ~@], [lay.wrap EXCEPT !.mix = ~@] }
+          \cup { [lay.wrap EXCEPT !.docE = e] : e \in {"none", "cmt", "bare", "null"} \ {lay.wrap.docE} } :
     /\ Len(w.levels) <= 4
     /\ WrapOK(lay.base, w) /\ (w.embed => ~lay.crlf)
     /\ lay' = [lay EXCEPT !.wrap = w]
